@@ -698,6 +698,27 @@ func (w *World) SetPhase(name string, phase corev1.PodPhase) bool {
 	return true
 }
 
+// SetTerminating marks the pod as being deleted gracefully: the API server sets the deletion timestamp, the pod keeps running (and
+// keeps its address) until the kubelet has stopped it and the object is really removed.
+func (w *World) SetTerminating(name string) bool {
+	old := w.truthPod(name)
+	if old == nil || old.DeletionTimestamp != nil {
+		return false
+	}
+	cur := old.DeepCopy()
+	now := metav1.Now()
+	cur.DeletionTimestamp = &now
+	secs := int64(30)
+	cur.DeletionGracePeriodSeconds = &secs
+	if err := w.Kube.Tracker().Update(podGVR, cur, NS); err != nil {
+		panic(err)
+	}
+	w.mu.Lock()
+	w.podChangedLocked(old, cur)
+	w.mu.Unlock()
+	return true
+}
+
 func (w *World) DeletePod(name string) bool {
 	old := w.truthPod(name)
 	if old == nil {
